@@ -30,6 +30,10 @@ Props/C18Reloc.lean — C18-R1 (relocation), statement level.
                          `Moved` and `MovedModAbs` of `MovedMod`; the 16-bit offset field is the label's address.
 (h) `*_movedNeg`, `reloc_fixAll_neg`, `reloc_finish_neg` (repair batch B3): the fourth class `MovedNeg` (`number - label`;
                          the field moves by MINUS `D` modulo `$10000`), whole program with four classes.
+(j) model batch 8 (`fixAllL` = `fixAll`, then the FCB / FDB lists are evaluated: `FDB L1,SYM+1`): `reloc_fixAllL*`, and the new
+                         hypothesis `hlist` of `reloc_finish*`: every list statement is `ListsConst t` — no element of the
+                         list resolves to a label or a label expression (Lemmas/RelocList.lean).  A list with a label
+                         element is in no class (no claim).
 (i) `*_any` (end of the file): the same theorems for programs at ANY origin, moves across `$100` included — the lower
                          bound `256 ≤ o` of `OrgBounds` is gone (`OrgBoundsAny`), the relation between the two layouts is
                          int-level (`AddrShiftAny` / `IntAddr`, Lemmas/RelocAny.lean); operand fields and bytes are
@@ -41,6 +45,7 @@ import CoCoVerif.Lemmas.RelocMod
 import CoCoVerif.Lemmas.RelocNeg
 import CoCoVerif.Lemmas.RelocEqu
 import CoCoVerif.Lemmas.RelocAny
+import CoCoVerif.Lemmas.RelocList
 import CoCoVerif.Props.C18
 
 namespace CoCo.Props
@@ -322,6 +327,112 @@ theorem FinalRel.row_operand {t t' : Stmt} (h : FinalRel D t t') : t'.row = t.ro
   obtain ⟨h1, _⟩ := h
   rcases h1 with h1 | h1 <;> rw [h1] <;> exact ⟨rfl, rfl⟩
 
+/-! ### (model batch 8) the list pass `evalLists` after `fixAll` -/
+
+theorem shiftV_list {v : Value} (h : v.isList = true) : shiftV D v = v := by
+  cases v <;> first | rfl | cases h
+theorem shiftV_nonlist {v : Value} (h : v.isList = false) : (shiftV D v).isList = false := by
+  cases v <;> first | rfl | cases h
+theorem shiftVmod_list {v : Value} (h : v.isList = true) : shiftVmod D v = v := by
+  cases v <;> first | rfl | cases h
+theorem shiftVmod_nonlist {v : Value} (h : v.isList = false) : (shiftVmod D v).isList = false := by
+  cases v <;> first | rfl | cases h
+theorem shiftVneg_list {v : Value} (h : v.isList = true) : shiftVneg D v = v := by
+  cases v <;> first | rfl | cases h
+theorem shiftVneg_nonlist {v : Value} (h : v.isList = false) : (shiftVneg D v).isList = false := by
+  cases v <;> first | rfl | cases h
+
+theorem shiftV_numeric' {v : Value} (h : v.isNumeric = true) : (shiftV D v).isNumeric = true := by
+  cases v <;> first | rfl | cases h
+theorem shiftVmod_numeric {v : Value} (h : v.isNumeric = true) : (shiftVmod D v).isNumeric = true := by
+  cases v <;> first | rfl | cases h
+theorem shiftVneg_numeric {v : Value} (h : v.isNumeric = true) : (shiftVneg D v).isNumeric = true := by
+  cases v <;> first | rfl | cases h
+
+/-- the first halves of `FinalRel`, `FinalRelMod`, `FinalRelNeg`, `FinalRelAny`: equal except for the address and the
+operand field, which is the same or moved in one of the three ways -/
+def AddlRel (D : Nat) (t t' : Stmt) : Prop :=
+  t' = t.setAddress t'.pkg.address ∨ t' = (t.shiftAdditional D).setAddress t'.pkg.address ∨
+    t' = (t.shiftAdditionalMod D).setAddress t'.pkg.address ∨
+    t' = (t.shiftAdditionalNeg D).setAddress t'.pkg.address
+
+theorem AddlRel.operand {x x' : Stmt} (h : AddlRel D x x') : x'.operand = x.operand := by
+  rcases h with h | h | h | h <;> rw [h] <;> rfl
+
+theorem AddlRel.list {x x' : Stmt} (h : AddlRel D x x') (hl : x.pkg.additional.isList = true) :
+    x'.pkg.additional = x.pkg.additional := by
+  rcases h with h | h | h | h <;> generalize x'.pkg.address = a at h <;> subst h
+  · rfl
+  · exact shiftV_list hl
+  · exact shiftVmod_list hl
+  · exact shiftVneg_list hl
+
+theorem AddlRel.nonlist {x x' : Stmt} (h : AddlRel D x x') (hl : x.pkg.additional.isList = false) :
+    x'.pkg.additional.isList = false := by
+  rcases h with h | h | h | h <;> generalize x'.pkg.address = a at h <;> subst h
+  · exact hl
+  · exact shiftV_nonlist hl
+  · exact shiftVmod_nonlist hl
+  · exact shiftVneg_nonlist hl
+
+theorem AddlRel.set {x x' : Stmt} (h : AddlRel D x x') (v : Value) :
+    ({ x' with pkg := { x'.pkg with additional := v } } : Stmt)
+      = ({ x with pkg := { x.pkg with additional := v } } : Stmt).setAddress x'.pkg.address := by
+  rcases h with h | h | h | h <;> generalize x'.pkg.address = a at h ⊢ <;> subst h <;> rfl
+
+/-- the addresses of a laid out program are numbers -/
+theorem addrOf_numeric_any (h : PW (AddrShiftAny D) as as') : ∀ j v, addrOf as j = some v → v.isNumeric = true := by
+  intro j v hv
+  unfold addrOf at hv
+  cases hj : as[j]? with
+  | none => rw [hj] at hv; cases hv
+  | some x =>
+    rw [hj] at hv
+    simp only [Option.map_some, Option.some.injEq] at hv
+    subst hv
+    obtain ⟨x', _, _, a, hh, m, hh', m', e1, _, _⟩ := h.get hj
+    rw [e1]; rfl
+
+theorem addrOf_numeric (h : PW (AddrShift D) as as') : ∀ j v, addrOf as j = some v → v.isNumeric = true :=
+  addrOf_numeric_any (h.mono (fun _ _ => AddrShift.toAny))
+
+/-- `fixAll` and the list pass leave the addresses alone -/
+theorem fixAllL_sameAddr {t : SymTab} {l l' : List Stmt} (h : fixAllL t l = .ok l') : PW SameAddr l l' :=
+  (fixAllL_pw h).mono (fun _ _ => SameButAdditional.sameAddr)
+
+theorem setAddress_listStable : ListStable (fun x x' : Stmt => x' = x.setAddress x'.pkg.address) where
+  operand h := AddlRel.operand (D := 0) (.inl h)
+  list h := AddlRel.list (D := 0) (.inl h)
+  nonlist h := AddlRel.nonlist (D := 0) (.inl h)
+  set v h _ := AddlRel.set (D := 0) (.inl h) v
+
+/-- (c, unmoved, model batch 8) the list pass on a statement that `fixFit` left IDENTICAL (up to the address) and whose
+list elements do not resolve to labels: identical again -/
+theorem reloc_list_unmoved {t : SymTab} {fs fs' : List Stmt} {u u' s s' : Stmt} (he : u' = u.setAddress u'.pkg.address)
+    (hc : ListsConst t u) (h1 : evalList1 t fs u = .ok s) (h2 : evalList1 t fs' u' = .ok s') :
+    s' = s.setAddress s'.pkg.address := by
+  have := evalList1_outRel setAddress_listStable t fs fs' he hc
+  rw [h1, h2] at this
+  exact this.rel
+
+theorem FinalRel.toAddl {t t' : Stmt} (h : FinalRel D t t') : AddlRel D t t' :=
+  h.1.elim .inl (fun h => .inr (.inl h))
+
+theorem FinalRel.listStable : ListStable (FinalRel D) where
+  operand h := h.toAddl.operand
+  list h := h.toAddl.list
+  nonlist h := h.toAddl.nonlist
+  set v h _ := ⟨.inl (h.toAddl.set v), h.2⟩
+
+/-- (model batch 8) `fixAll` and then the list pass on a program all of whose statements are in one of the two classes and
+whose list statements are `ListsConst`: same outcome kind, and statement by statement `FinalRel` -/
+theorem reloc_fixAllL (h : PW (RelocOut D) as as')
+    (hcov : ∀ (i : Nat) (s : Stmt), as[i]? = some s → Unmoved D as s ∨ Moved D as s) (t : SymTab)
+    (hlist : ∀ (i : Nat) (s : Stmt), as[i]? = some s → ListsConst t s) :
+    OutRel (PW (FinalRel D)) (fixAllL t as) (fixAllL t as') :=
+  fixAllL_outRel FinalRel.listStable t (reloc_fixAll h hcov)
+    (fun _ hf => fixAll_listsConst (addrOf_numeric (RelocOut.addrShift h)) hlist hf)
+
 /-- the two assemblies: statements related by `FinalRel`; in the symbol table every entry that was a
 statement index (a label) is moved by `D` and every other entry (EQU) is unchanged; the origin is moved by
 `D`; the name is the same -/
@@ -336,11 +447,12 @@ Model batch 4: `hequ` — no EQU of the table is defined by a label expression (
 moves; see `reloc_finish_equ`) -/
 theorem reloc_finish (h : PW (RelocOut D) as as')
     (hcov : ∀ (i : Nat) (s : Stmt), as[i]? = some s → Unmoved D as s ∨ Moved D as s) (t : SymTab)
-    (hequ : NoLabelEqu t) : OutRel (AsmRel D t) (finish t as) (finish t as') := by
-  have hfix := reloc_fixAll h hcov
+    (hequ : NoLabelEqu t) (hlist : ∀ (i : Nat) (s : Stmt), as[i]? = some s → ListsConst t s) :
+    OutRel (AsmRel D t) (finish t as) (finish t as') := by
+  have hfix := reloc_fixAllL h hcov t hlist
   unfold finish
-  generalize fixAll as 0 as = o at hfix ⊢
-  generalize fixAll as' 0 as' = o' at hfix ⊢
+  generalize fixAllL t as = o at hfix ⊢
+  generalize fixAllL t as' = o' at hfix ⊢
   cases hfix with
   | ok hr =>
     rename_i fs fs'
@@ -653,6 +765,26 @@ theorem FinalRelMod.row_operand {t t' : Stmt} (h : FinalRelMod D t t') :
   obtain ⟨h1, _⟩ := h
   rcases h1 with h1 | h1 | h1 <;> rw [h1] <;> exact ⟨rfl, rfl⟩
 
+theorem FinalRelMod.toAddl {t t' : Stmt} (h : FinalRelMod D t t') : AddlRel D t t' := by
+  rcases h.1 with h1 | h1 | h1
+  · exact .inl h1
+  · exact .inr (.inl h1)
+  · exact .inr (.inr (.inl h1))
+
+theorem FinalRelMod.listStable : ListStable (FinalRelMod D) where
+  operand h := h.toAddl.operand
+  list h := h.toAddl.list
+  nonlist h := h.toAddl.nonlist
+  set v h _ := ⟨.inl (h.toAddl.set v), h.2⟩
+
+/-- (model batch 8) `fixAll` and then the list pass, three classes -/
+theorem reloc_fixAllL_mod (h : PW (RelocOut D) as as')
+    (hcov : ∀ (i : Nat) (s : Stmt), as[i]? = some s → Unmoved D as s ∨ Moved D as s ∨ MovedMod D as s) (t : SymTab)
+    (hlist : ∀ (i : Nat) (s : Stmt), as[i]? = some s → ListsConst t s) :
+    OutRel (PW (FinalRelMod D)) (fixAllL t as) (fixAllL t as') :=
+  fixAllL_outRel FinalRelMod.listStable t (reloc_fixAll_mod h hcov)
+    (fun _ hf => fixAll_listsConst (addrOf_numeric (RelocOut.addrShift h)) hlist hf)
+
 /-- as `AsmRel`, statements related by `FinalRelMod` -/
 def AsmRelMod (D : Nat) (t : SymTab) (A B : Assembly) : Prop :=
   PW (FinalRelMod D) A.stmts B.stmts ∧
@@ -664,11 +796,12 @@ def AsmRelMod (D : Nat) (t : SymTab) (A B : Assembly) : Prop :=
 `AsmRelMod`; `hequ` as in `reloc_finish` -/
 theorem reloc_finish_mod (h : PW (RelocOut D) as as')
     (hcov : ∀ (i : Nat) (s : Stmt), as[i]? = some s → Unmoved D as s ∨ Moved D as s ∨ MovedMod D as s) (t : SymTab)
-    (hequ : NoLabelEqu t) : OutRel (AsmRelMod D t) (finish t as) (finish t as') := by
-  have hfix := reloc_fixAll_mod h hcov
+    (hequ : NoLabelEqu t) (hlist : ∀ (i : Nat) (s : Stmt), as[i]? = some s → ListsConst t s) :
+    OutRel (AsmRelMod D t) (finish t as) (finish t as') := by
+  have hfix := reloc_fixAllL_mod h hcov t hlist
   unfold finish
-  generalize fixAll as 0 as = o at hfix ⊢
-  generalize fixAll as' 0 as' = o' at hfix ⊢
+  generalize fixAllL t as = o at hfix ⊢
+  generalize fixAllL t as' = o' at hfix ⊢
   cases hfix with
   | ok hr =>
     rename_i fs fs'
@@ -903,6 +1036,23 @@ theorem FinalRelNeg.row_operand {t t' : Stmt} (h : FinalRelNeg D t t') :
   obtain ⟨h1, _⟩ := h
   rcases h1 with h1 | h1 | h1 | h1 <;> rw [h1] <;> exact ⟨rfl, rfl⟩
 
+theorem FinalRelNeg.toAddl {t t' : Stmt} (h : FinalRelNeg D t t') : AddlRel D t t' := h.1
+
+theorem FinalRelNeg.listStable : ListStable (FinalRelNeg D) where
+  operand h := h.toAddl.operand
+  list h := h.toAddl.list
+  nonlist h := h.toAddl.nonlist
+  set v h _ := ⟨.inl (h.toAddl.set v), h.2⟩
+
+/-- (model batch 8) `fixAll` and then the list pass, four classes -/
+theorem reloc_fixAllL_neg (h : PW (RelocOut D) as as')
+    (hcov : ∀ (i : Nat) (s : Stmt), as[i]? = some s →
+      Unmoved D as s ∨ Moved D as s ∨ MovedMod D as s ∨ MovedNeg as s) (t : SymTab)
+    (hlist : ∀ (i : Nat) (s : Stmt), as[i]? = some s → ListsConst t s) :
+    OutRel (PW (FinalRelNeg D)) (fixAllL t as) (fixAllL t as') :=
+  fixAllL_outRel FinalRelNeg.listStable t (reloc_fixAll_neg h hcov)
+    (fun _ hf => fixAll_listsConst (addrOf_numeric (RelocOut.addrShift h)) hlist hf)
+
 /-- as `AsmRelMod`, statements related by `FinalRelNeg` -/
 def AsmRelNeg (D : Nat) (t : SymTab) (A B : Assembly) : Prop :=
   PW (FinalRelNeg D) A.stmts B.stmts ∧
@@ -915,11 +1065,12 @@ def AsmRelNeg (D : Nat) (t : SymTab) (A B : Assembly) : Prop :=
 theorem reloc_finish_neg (h : PW (RelocOut D) as as')
     (hcov : ∀ (i : Nat) (s : Stmt), as[i]? = some s →
       Unmoved D as s ∨ Moved D as s ∨ MovedMod D as s ∨ MovedNeg as s) (t : SymTab)
-    (hequ : NoLabelEqu t) : OutRel (AsmRelNeg D t) (finish t as) (finish t as') := by
-  have hfix := reloc_fixAll_neg h hcov
+    (hequ : NoLabelEqu t) (hlist : ∀ (i : Nat) (s : Stmt), as[i]? = some s → ListsConst t s) :
+    OutRel (AsmRelNeg D t) (finish t as) (finish t as') := by
+  have hfix := reloc_fixAllL_neg h hcov t hlist
   unfold finish
-  generalize fixAll as 0 as = o at hfix ⊢
-  generalize fixAll as' 0 as' = o' at hfix ⊢
+  generalize fixAllL t as = o at hfix ⊢
+  generalize fixAllL t as' = o' at hfix ⊢
   cases hfix with
   | ok hr =>
     rename_i fs fs'
@@ -969,20 +1120,21 @@ defined by a label expression, or EQUs defined by a label expression of one of t
 theorem reloc_finish_equ (h : PW (RelocOut D) as as')
     (hcov : ∀ (i : Nat) (s : Stmt), as[i]? = some s →
       Unmoved D as s ∨ Moved D as s ∨ MovedMod D as s ∨ MovedNeg as s) (t : SymTab)
-    (hequ : ∀ kv ∈ t, EquCovered D as t kv.2) :
+    (hequ : ∀ kv ∈ t, EquCovered D as t kv.2)
+    (hlist : ∀ (i : Nat) (s : Stmt), as[i]? = some s → ListsConst t s) :
     OutRel (AsmRelEqu D as t) (finish t as) (finish t as') := by
-  have hfix := reloc_fixAll_neg h hcov
+  have hfix := reloc_fixAllL_neg h hcov t hlist
   have hI : PW (AddrShiftI D) as as' := RelocOut.addrShiftI h
   unfold finish
-  generalize hfa : fixAll as 0 as = o at hfix ⊢
-  generalize hfb : fixAll as' 0 as' = o' at hfix ⊢
+  generalize hfa : fixAllL t as = o at hfix ⊢
+  generalize hfb : fixAllL t as' = o' at hfix ⊢
   cases hfix with
   | ok hr =>
     rename_i fs fs'
     dsimp only
     have hsh : PW (AddrShift D) fs fs' := hr.mono (fun _ _ r => r.2)
-    have hs := fixAll_sameAddr hfa
-    have hs' := fixAll_sameAddr hfb
+    have hs := fixAllL_sameAddr hfa
+    have hs' := fixAllL_sameAddr hfb
     have hev := evalSyms_outRel hI t t hequ
     rw [← evalSyms_sameAddr hs, ← evalSyms_sameAddr hs'] at hev
     generalize he : evalSyms fs t t = o1 at hev ⊢
@@ -1269,6 +1421,22 @@ theorem reloc_fixAll_any (h : PW (RelocOutAny D) as as')
     obtain ⟨v, rfl⟩ := fixFit_keeps ht
     exact ⟨.inr (.inr (.inr rfl)), rfl, hrel.2⟩
 
+theorem FinalRelAny.toAddl {t t' : Stmt} (h : FinalRelAny D t t') : AddlRel D t t' := h.1
+
+theorem FinalRelAny.listStable : ListStable (FinalRelAny D) where
+  operand h := h.toAddl.operand
+  list h := h.toAddl.list
+  nonlist h := h.toAddl.nonlist
+  set v h _ := ⟨.inl (h.toAddl.set v), h.2⟩
+
+/-- (model batch 8) `fixAll` and then the list pass, any origin -/
+theorem reloc_fixAllL_any (h : PW (RelocOutAny D) as as')
+    (hcov : ∀ (i : Nat) (s : Stmt), as[i]? = some s → CoveredAny D as s) (t : SymTab)
+    (hlist : ∀ (i : Nat) (s : Stmt), as[i]? = some s → ListsConst t s) :
+    OutRel (PW (FinalRelAny D)) (fixAllL t as) (fixAllL t as') :=
+  fixAllL_outRel FinalRelAny.listStable t (reloc_fixAll_any h hcov)
+    (fun _ hf => fixAll_listsConst (addrOf_numeric_any (RelocOutAny.addrShiftAny h)) hlist hf)
+
 theorem FinalRelAny.row_addr {t t' : Stmt} (h : FinalRelAny D t t') :
     t'.row = t.row ∧ IntAddr D t.pkg.address t'.pkg.address := by
   obtain ⟨h1, _, hw⟩ := h
@@ -1297,20 +1465,21 @@ and name: identical outcome kind, results related by `AsmRelAny` (`reloc_finish_
 values; `equCovered_of_noLabelEqu` gives `hequ` for a table without EQUs defined by label expressions) -/
 theorem reloc_finish_any (h : PW (RelocOutAny D) as as')
     (hcov : ∀ (i : Nat) (s : Stmt), as[i]? = some s → CoveredAny D as s) (t : SymTab)
-    (hequ : ∀ kv ∈ t, EquCovered D as t kv.2) :
+    (hequ : ∀ kv ∈ t, EquCovered D as t kv.2)
+    (hlist : ∀ (i : Nat) (s : Stmt), as[i]? = some s → ListsConst t s) :
     OutRel (AsmRelAny D as t) (finish t as) (finish t as') := by
-  have hfix := reloc_fixAll_any h hcov
+  have hfix := reloc_fixAllL_any h hcov t hlist
   have hI : PW (AddrShiftI D) as as' := RelocOutAny.addrShiftI h
   unfold finish
-  generalize hfa : fixAll as 0 as = o at hfix ⊢
-  generalize hfb : fixAll as' 0 as' = o' at hfix ⊢
+  generalize hfa : fixAllL t as = o at hfix ⊢
+  generalize hfb : fixAllL t as' = o' at hfix ⊢
   cases hfix with
   | ok hr =>
     rename_i fs fs'
     dsimp only
     have hsh : PW (AddrShiftAny D) fs fs' := hr.mono (fun _ _ r => r.2)
-    have hs := fixAll_sameAddr hfa
-    have hs' := fixAll_sameAddr hfb
+    have hs := fixAllL_sameAddr hfa
+    have hs' := fixAllL_sameAddr hfb
     have hev := evalSyms_outRel hI t t hequ
     rw [← evalSyms_sameAddr hs, ← evalSyms_sameAddr hs'] at hev
     generalize he : evalSyms fs t t = o1 at hev ⊢
